@@ -110,6 +110,13 @@ func (c *Chunk) Add(chunk pb.Chunk) bool {
 			chunk.DeploymentId, c.did, chunk.BinVer, raftio.TransportBinVersion)
 		return false
 	}
+	if fn := c.fs.PathBase(chunk.Filepath); fn == "" || fn == "." ||
+		fn == ".." || fn == "/" {
+		// not a file name, joined to the temp dir it would name that directory
+		// itself or its parent
+		plog.Errorf("invalid file name in chunk, %s", chunk.Filepath)
+		return false
+	}
 	key := chunkKey(chunk)
 	lock := c.getSnapshotLock(key)
 	lock.lock()
